@@ -50,6 +50,8 @@ type Exec struct {
 	used      map[string]bool // contracts assumed at call sites
 	pendingLabel string
 	topScope  *SpecScope
+	wfSeen    map[[2]*Term]bool
+	ghosts    map[string]*Value
 }
 
 func (x *Exec) fr() *frame { return x.frames[len(x.frames)-1] }
@@ -499,6 +501,15 @@ func (x *Exec) runLoop(spec *LoopSpec, ord int, label string, st *State, cond fu
 	// --- invariant-based ---
 	name := fmt.Sprintf("%s/loop%d", shortKey(f.fi.Key), ord)
 	sc := x.loopScope(st, n, scope)
+	for _, g := range spec.Ghost {
+		x.dry++
+		v := x.evalSpecVal(g, sc, st)
+		x.dry--
+		if x.ghosts == nil {
+			x.ghosts = map[string]*Value{}
+		}
+		x.ghosts[g.Label] = v
+	}
 	for i, inv := range spec.Inv {
 		t := x.evalSpecBool(inv, sc, st)
 		x.oblige(st, "invariant-entry", name+"/"+clauseName(inv, i), t, n)
@@ -548,6 +559,7 @@ func (x *Exec) runLoop(spec *LoopSpec, ord int, label string, st *State, cond fu
 		w.heap = append(w.heap, wl.heap...)
 		w.allocs = w.allocs || wl.allocs
 	}
+	x.assumeHeapWF(hst)
 	sc = x.loopScope(hst, n, scope)
 	for _, inv := range spec.Inv {
 		x.assume(hst, x.evalSpecBool(inv, sc, hst))
@@ -573,6 +585,11 @@ func (x *Exec) runLoop(spec *LoopSpec, ord int, label string, st *State, cond fu
 		for i, inv := range spec.Inv {
 			t := x.evalSpecBool(inv, sc2, after)
 			x.oblige(after, "invariant-step", name+"/"+clauseName(inv, i), t, n)
+		}
+		if x.dry == 0 {
+			co := x.vc.oblige("cover", "cover:"+name+"/body-end", after.guard, x.pos(n))
+			co.Status = ""
+			co.Cover = true
 		}
 	}
 	exits := append([]*State{}, lc.breaks...)
@@ -606,6 +623,10 @@ func trunc(s string, n int) string {
 // applyLoopHavoc havocs in nh everything the log says the loop may write.
 // It returns a function telling whether the havoc set differs from that of prev.
 func (x *Exec) applyLoopHavoc(nh, pre *State, wl *WriteLog, top *Term, mark int, spec *LoopSpec) func(prev *State) bool {
+	// alloc frontier
+	nb := x.fresh("alloc", IntS)
+	x.vc.assume(Ge(nb, top))
+	nh.allocBase, nh.allocK = nb, 0
 	// variables
 	for o := range wl.vars {
 		if v, ok := pre.env[o]; ok {
@@ -615,10 +636,6 @@ func (x *Exec) applyLoopHavoc(nh, pre *State, wl *WriteLog, top *Term, mark int,
 			nh.env[o] = x.symbolicLike(nh, v, o.Name())
 		}
 	}
-	// alloc frontier
-	nb := x.vc.fresh("alloc", IntS)
-	x.vc.assume(Ge(nb, top))
-	nh.allocBase, nh.allocK = nb, 0
 	// heap
 	var ws []heapWrite
 	for _, w := range wl.heap {
@@ -720,9 +737,7 @@ func (x *Exec) symbolicLike(st *State, v *Value, hint string) *Value {
 }
 
 func (x *Exec) fresh(hint string, s *Sort) *Term {
-	t := x.vc.fresh(hint, s)
-	x.symMark[t] = x.vc.nsym
-	return t
+	return x.vc.fresh(hint, s)
 }
 
 // ---------- range ----------
@@ -839,6 +854,7 @@ func (x *Exec) execRangeMap(s *ast.RangeStmt, st *State, label string, coll *Val
 	}
 	mref := coll.term()
 	domOf := func(st *State) *Term { return Select(st.hget(x.mapDomKey(mt)), mref) }
+	dom0 := domOf(st)
 	// exists unvisited key: skolem chosen fresh per evaluation of cond
 	cond := func(st *State) *Term {
 		k := x.fresh("mapkey", ks)
@@ -849,7 +865,13 @@ func (x *Exec) execRangeMap(s *ast.RangeStmt, st *State, label string, coll *Val
 		// has <=> exists unvisited key in dom; k is a witness when has
 		x.vc.assume(Implies(has, And(Select(d, k), Not(Select(v, k)))))
 		q := Var("qk!", ks)
-		x.vc.assume(Implies(Not(has), Forall([]*Term{q}, Implies(mk("select", "", BoolS, nil, d, q), mk("select", "", BoolS, nil, v, q)), mk("select", "", BoolS, nil, v, q))))
+		if d == dom0 {
+			// the loop does not modify the map: visited ⊆ dom always, so exit means visited = dom
+			x.vc.assume(Implies(Not(has), mk("=", "", BoolS, nil, v, d)))
+			x.vc.assume(Forall([]*Term{q}, Implies(mk("select", "", BoolS, nil, v, q), mk("select", "", BoolS, nil, d, q)), mk("select", "", BoolS, nil, v, q)))
+		} else {
+			x.vc.assume(Implies(Not(has), Forall([]*Term{q}, Implies(mk("select", "", BoolS, nil, d, q), mk("select", "", BoolS, nil, v, q)), mk("select", "", BoolS, nil, v, q))))
+		}
 		st.setVar(cur, &Value{T: mt.Key(), Tm: k})
 		return has
 	}
